@@ -9,6 +9,7 @@ package main
 
 import (
 	"fmt"
+	"math"
 	"math/big"
 	"sort"
 	"strings"
@@ -1052,6 +1053,54 @@ func init() {
 		}
 		return v1(r)
 	})
+	// Go data of every shape the bridge accepts, with explicit target types: nil pointers, interface slices for
+	// tuples, string-keyed maps for objects, duplicates for sets, unnormalized keys, numbers at the limits of the
+	// machine types, big numbers, values already in cty form, capsule payloads
+	defOp("GoctyInRich", "", func(t *taskState, a [3]cty.Value, p [3]int) opRes {
+		str := "s"
+		composed, decomposed := "\u00e9", "e\u0301"
+		type inner struct {
+			N *int    `cty:"n"`
+			S *string `cty:"s"`
+		}
+		type outer struct {
+			In  *inner          `cty:"in"`
+			L   []inner         `cty:"l"`
+			V   cty.Value       `cty:"v"`
+			M   map[string]bool `cty:"m"`
+			Big *big.Float      `cty:"big"`
+		}
+		seven := 7
+		innerT := cty.Object(map[string]cty.Type{"n": cty.Number, "s": cty.String})
+		rows := []struct {
+			v  interface{}
+			ty cty.Type
+		}{
+			{map[string]*string{"a": nil, "b": &str, decomposed: &composed}, cty.Map(cty.String)},
+			{[]interface{}{"a", 1, true, nil}, cty.Tuple([]cty.Type{cty.String, cty.Number, cty.Bool, cty.String})},
+			{map[string]interface{}{"n": 3, "s": decomposed}, innerT},
+			{[]string{"b", "a", "b", decomposed, composed}, cty.Set(cty.String)},
+			{[]*inner{nil, {N: &seven}, {S: &decomposed}}, cty.List(innerT)},
+			{outer{In: nil, L: []inner{{}, {N: &seven}}, V: a[0], M: map[string]bool{decomposed: true}, Big: new(big.Float).SetPrec(24).SetFloat64(0.1)},
+				cty.Object(map[string]cty.Type{"in": innerT, "l": cty.List(innerT), "v": cty.DynamicPseudoType, "m": cty.Map(cty.Bool), "big": cty.Number})},
+			{uint64(math.MaxUint64), cty.Number}, {int64(math.MinInt64), cty.Number}, {math.Inf(-1), cty.Number}, {float32(0.1), cty.Number},
+			{new(big.Int).Lsh(big.NewInt(1), 200), cty.Number},
+			{capPayloads[0][p[1]%6], capTypes[0]}, {*capPayloads[1][p[1]%6], capTypes[1]},
+			{a[0], cty.DynamicPseudoType}, {[]cty.Value{a[0], a[0]}, cty.Tuple([]cty.Type{cty.DynamicPseudoType, cty.DynamicPseudoType})},
+			{[3]int{1, 2, 3}, cty.List(cty.Number)}, {map[string][]*int{"k": {nil, &seven}}, cty.Map(cty.List(cty.Number))},
+			{(*string)(nil), cty.String}, {[]string(nil), cty.List(cty.String)}, {map[string]int(nil), cty.Map(cty.Number)},
+		}
+		row := rows[p[0]%len(rows)]
+		if um, _ := a[0].UnmarkDeep(); um.RawEquals(a[0]) == false {
+			// (the bridge takes cty values as they are; marks are its caller's business)
+			row = rows[(p[0]%len(rows)+6)%len(rows)]
+		}
+		r, err := gocty.ToCtyValue(row.v, row.ty)
+		if err != nil {
+			return sres("%d:%s", p[0]%len(rows), errClass(err))
+		}
+		return v1(r)
+	}, selAny)
 }
 
 func sortedAttrNames(ty cty.Type) []string {
